@@ -2,6 +2,7 @@ package checks
 
 import (
 	"fmt"
+	"reflect"
 	"runtime"
 	"sort"
 	"strings"
@@ -31,6 +32,17 @@ import (
 // every arrival the process is awaited quiet (goroutine count) and the new invocations are compared,
 // as multisets, with what the reference says is due for that arrival.
 //
+// Received data. A reply may carry a restricted data set (cmd.function + filter): a partial list, a partial
+// item for a selector, a delete selector. Once the cache of the answering remote feature holds a full list
+// (2-3 items from an earlier accepted reply), half of the accepted replies are of these kinds; the callback
+// must see exactly the data set of THAT reply, not what the cache holds after merging it.
+//
+// Other peers. A third, bystander peer (announced, same numbering) never answers anything; it is
+// disconnected (RemoveRemoteDeviceConnection) and reconnected at drawn points of the history, between
+// registrations and arrivals and (racing cases) concurrently with them; now and then it announces the removal
+// of its entity and adds it again. What the statement promises for a
+// counter does not depend on what other peers do: every registration still fires exactly once.
+//
 // "Different function" means a different function literal: the stack compares code pointers, so two
 // closures of ONE literal count as the same function (see the report); the harness therefore keeps four
 // literals and never registers two closures of one literal for one counter on one feature, except as
@@ -49,12 +61,15 @@ func init() {
 		ID:    "C14",
 		Floor: 100,
 		Rule: "case = seeded history of 14-40 steps over 4 local features x 1-4 counters x 4 callback functions x 2 peers: register (15% deliberate duplicates), register result callback, arrival {reply|result} x {matching, non-matching, repeated, missing reference} x " +
-			"{own, foreign function} x {wire, direct HandleMessage for the missing reference}; every third case additionally races registrations against the arrival of a matching message (each followed by a second matching message) and registers 2-6 callbacks for one counter concurrently (different functions and one function value from several goroutines, followed by a matching and a repeated message). " +
+			"{own, foreign function} x {wire, direct HandleMessage for the missing reference}; accepted replies carry a full list of 1-3 items or, once the cache of the answering feature holds 2-3 items, every second time a restricted data set (partial list, partial item + selector, delete selector) and the callback must see the data set of that reply; " +
+			"a third, bystander peer is disconnected/reconnected (or announces the removal of its entity and adds it again) at 8% of the steps (and is disconnected concurrently with every third racing arrival); every third case additionally races registrations against the arrival of a matching message (each followed by a second matching message) and registers 2-6 callbacks for one counter concurrently (different functions and one function value from several goroutines, followed by a matching and a repeated message). " +
 			"A case is non-trivial if at least one callback invocation, one refused duplicate registration (or one concurrent registration duel) and one arrival that must not fire anything were judged; distinct = distinct step-shape sequences (hash; payload values excluded).",
 		Assumptions: []string{
 			"acceptance of a reply is predicted as in C01: the function belongs to the type of the source feature and the payload is a plain full list",
 			"callbacks are keyed by local feature and counter only (the statement names no peer): a message of either peer referencing the counter consumes the registration, and the callback must then see that peer's feature",
 			"a result without error number is not generated (malformed; the statement is silent)",
+			"'the received data' of a reply is the data set that reply carries (as decoded), also when the reply carries a partial or delete filter: not the content of the cache after the reply was merged into it",
+			"the statement names no disconnects: what it promises for a counter holds whatever other peers do, so the disconnect of a bystander peer (one that was sent no request) must not cancel any registration",
 			"for a racing registration both 'invoked by the racing message' and 'left pending, invoked by the follow-up message' are accepted; never twice, never not at all",
 			"quiescence = goroutine count back at the idle baseline (callbacks run on goroutines spawned by the stack); watchdog expiry is inconclusive",
 		},
@@ -124,6 +139,7 @@ type c14Reg struct {
 	ctr          model.MsgCounterType
 	f            func(api.ResponseMessage)
 	racing       bool
+	acrossDrop   bool // was pending when the bystander peer was disconnected
 }
 
 type c14World struct {
@@ -141,6 +157,15 @@ type c14World struct {
 	shape    []string
 	nArr     int
 	duels    int
+
+	// lower bound of the number of items (ids 1..n) the cache of a peer's feature holds for a function,
+	// keyed by peer/source feature/function (maintained from the accepted replies injected so far)
+	cached map[string]int
+	// the bystander peer
+	by       *rig.Peer
+	byUp     bool
+	byDrops  int
+	partials int
 }
 
 func c14PeerFeats() []rig.FS {
@@ -178,14 +203,83 @@ func newC14World(c *rig.Ctx) *c14World {
 		cw.consumed = append(cw.consumed, map[model.MsgCounterType]bool{})
 		cw.results = append(cw.results, nil)
 	}
-	for i := 0; i < 2; i++ {
+	for i := 0; i < 3; i++ {
 		p := cw.w.AddPeer(i)
 		p.Ctr = uint64(100000 * (i + 1))
 		p.Announce(c14PeerFeats())
 		p.Tap.Take()
 	}
+	cw.by, cw.byUp = cw.w.Peers[2], true
+	cw.cached = map[string]int{}
 	cw.baseline = c14Settle()
 	return cw
+}
+
+// byConnect sets up a new connection for the bystander peer and announces its features (so that the
+// device has an address when it is disconnected the next time).
+func (cw *c14World) byConnect() {
+	p := cw.by
+	p.Tap = &rig.Tap{}
+	cw.w.Local.SetupRemoteDevice(p.Ski, p.Tap)
+	p.RD = cw.w.Local.RemoteDeviceForSki(p.Ski)
+	p.Announce(c14PeerFeats())
+	p.Tap.Take()
+}
+
+// bystander disconnects the bystander peer, reconnects it, or both ("flap"). Called at quiet points.
+func (cw *c14World) bystander(op string) {
+	drop := func() {
+		cw.w.Local.RemoveRemoteDeviceConnection(cw.by.Ski)
+		cw.byUp = false
+		cw.byDrops++
+		n := 0
+		for f := range cw.pending {
+			for _, rgs := range cw.pending[f] {
+				for _, rg := range rgs {
+					rg.acrossDrop = true
+					n++
+				}
+			}
+		}
+		cw.c.Count("bystander-disconnects", 1)
+		if n > 0 {
+			cw.c.Count("bystander-disconnects-with-pending-callbacks", 1)
+		}
+		cw.logf("bystander peer %s disconnected (%d registrations pending)", cw.by.Addr, n)
+	}
+	connect := func() {
+		cw.byConnect()
+		cw.byUp = true
+		cw.c.Count("bystander-reconnects", 1)
+		cw.logf("bystander peer %s reconnected and announced", cw.by.Addr)
+	}
+	switch {
+	case op == "entity" && cw.byUp:
+		// the connected bystander announces that its entity [1] was removed, and then announces it again
+		n := 0
+		for f := range cw.pending {
+			for _, rgs := range cw.pending[f] {
+				n += len(rgs)
+			}
+		}
+		cw.by.NotifyDiscovery(true, cw.by.Discovery(nil, nil, [][]uint{{1}}))
+		gone := cw.by.RD.Entity(rig.EA("", []uint{1}).Entity) == nil
+		cw.by.NotifyDiscovery(true, cw.by.Discovery(c14PeerFeats()[1:], map[string]model.NetworkManagementStateChangeType{"[1]": model.NetworkManagementStateChangeTypeAdded}, nil))
+		cw.by.Tap.Take()
+		if gone {
+			cw.c.Count("bystander-entity-removals", 1)
+		}
+		cw.logf("bystander peer %s announced the removal of its entity [1] (removed=%v, %d registrations pending) and added it again", cw.by.Addr, gone, n)
+	case op == "flap" && cw.byUp:
+		drop()
+		connect()
+	case cw.byUp:
+		drop()
+	default:
+		connect()
+	}
+	cw.c.Events(1)
+	cw.baseline = c14Settle()
 }
 
 func (cw *c14World) logf(f string, a ...any) {
@@ -260,6 +354,12 @@ type c14Arrival struct {
 	direct  bool // handed to FeatureLocal.HandleMessage instead of the wire (missing reference only)
 	errNo   int
 	n       int // unique payload number
+	// replies only: number of items of a full data set (ids 1..k); variant "" = full data set, or the reply
+	// carries a restricted one: "partial" (one item with identifier id), "partial-sel" (selector id + one item
+	// without identifier), "delete-sel" (delete selector id, no items)
+	k       int
+	variant string
+	id      int
 }
 
 func (cw *c14World) srcAddr(a c14Arrival) *model.FeatureAddressType {
@@ -275,14 +375,98 @@ func (cw *c14World) cmdOf(a c14Arrival) (model.CmdType, any, bool) {
 		rd := &model.ResultDataType{ErrorNumber: util.Ptr(model.ErrorNumberType(a.errNo)), Description: util.Ptr(model.DescriptionType(fmt.Sprintf("result %d", a.n)))}
 		return model.CmdType{ResultData: rd}, rd, true
 	}
-	meas := &model.MeasurementListDataType{MeasurementData: []model.MeasurementDataType{{MeasurementId: util.Ptr(model.MeasurementIdType(a.n)), Value: &model.ScaledNumberType{Number: util.Ptr(model.NumberType(a.n))}}}}
-	ec := &model.ElectricalConnectionDescriptionListDataType{ElectricalConnectionDescriptionData: []model.ElectricalConnectionDescriptionDataType{{ElectricalConnectionId: util.Ptr(model.ElectricalConnectionIdType(a.n))}}}
-	srcIsMeas := a.srcFeat == 1 || a.srcFeat == 3
-	useMeas := srcIsMeas != a.foreign
-	if useMeas {
-		return model.CmdType{MeasurementListData: meas}, meas, !a.foreign
+	// every item carries the unique payload number, so that the data of two messages never coincide
+	useMeas := cw.useMeas(a)
+	item := func(id int) reflect.Value {
+		if useMeas {
+			it := model.MeasurementDataType{Value: &model.ScaledNumberType{Number: util.Ptr(model.NumberType(a.n))}}
+			if id >= 0 {
+				it.MeasurementId = util.Ptr(model.MeasurementIdType(id))
+			}
+			return reflect.ValueOf(it)
+		}
+		it := model.ElectricalConnectionDescriptionDataType{Label: util.Ptr(model.LabelType(fmt.Sprintf("n%d", a.n)))}
+		if id >= 0 {
+			it.ElectricalConnectionId = util.Ptr(model.ElectricalConnectionIdType(id))
+		}
+		return reflect.ValueOf(it)
 	}
-	return model.CmdType{ElectricalConnectionDescriptionListData: ec}, ec, !a.foreign
+	li := c14ListMeas
+	if !useMeas {
+		li = c14ListEC
+	}
+	u := rig.Update{Kind: "full", SelKey: -1, DelSel: -1}
+	switch a.variant {
+	case "partial":
+		u.Kind, u.Items = "partial", []reflect.Value{item(a.id)}
+	case "partial-sel":
+		u.Kind, u.SelKey, u.Items = "partial-sel", a.id, []reflect.Value{item(-1)}
+	case "delete-sel":
+		u.Kind, u.DelSel = "delete-sel", a.id
+	default:
+		k := a.k
+		if k < 1 {
+			k = 1
+		}
+		for id := 1; id <= k; id++ {
+			u.Items = append(u.Items, item(id))
+		}
+	}
+	// what the receiver is handed: the data set of this message
+	return li.Cmd(u), li.MkList(rig.CloneItems(u.Items)), !a.foreign
+}
+
+var (
+	c14ListMeas = rig.ListByFn(model.FunctionTypeMeasurementListData)
+	c14ListEC   = rig.ListByFn(model.FunctionTypeElectricalConnectionDescriptionListData)
+)
+
+func (cw *c14World) useMeas(a c14Arrival) bool {
+	srcIsMeas := a.srcFeat == 1 || a.srcFeat == 3
+	return srcIsMeas != a.foreign
+}
+
+func (cw *c14World) cacheKey(a c14Arrival) string {
+	return fmt.Sprintf("%d/%d/%v", a.peer, a.srcFeat, cw.useMeas(a))
+}
+
+// shapeReply draws the data set of an acceptable reply: a full list of 1-3 items, or, when the cache of the
+// answering feature is known to hold at least two items, every second time a restricted data set.
+func (cw *c14World) shapeReply(a *c14Arrival) {
+	r := cw.c.Rand
+	a.k, a.variant, a.id = 1+r.Intn(3), "", 0
+	if a.kind != "reply" || a.foreign {
+		return
+	}
+	if r.Intn(3) > 0 {
+		a.k = 2 + r.Intn(2)
+	}
+	if n := cw.cached[cw.cacheKey(*a)]; n >= 2 && r.Intn(2) == 0 {
+		a.variant = []string{"partial", "partial", "partial-sel", "delete-sel"}[r.Intn(4)]
+		a.id = 1 + r.Intn(n)
+		if a.variant == "delete-sel" {
+			a.id = n // the cache keeps ids 1..n-1
+		}
+	}
+}
+
+// noteInjected maintains the lower bound of the cache content after an accepted reply was delivered.
+func (cw *c14World) noteInjected(a c14Arrival) {
+	if a.kind != "reply" || a.foreign {
+		return
+	}
+	key := cw.cacheKey(a)
+	switch a.variant {
+	case "":
+		cw.cached[key] = a.k
+		if a.k < 1 {
+			cw.cached[key] = 1
+		}
+	case "delete-sel":
+		if cw.cached[key] > 0 {
+			cw.cached[key]--
+		}
+	}
 }
 
 // due computes (and consumes in the reference) what must fire for a; racing registrations are handled by the caller.
@@ -295,6 +479,13 @@ func (cw *c14World) due(a c14Arrival) (want []c14Inv) {
 	what := fmt.Sprintf("ref=%d local=%s from=%s/%s data=%s", *a.ref, cw.feats[a.feat].Address().String(), p.Ski, cw.srcAddr(a).String(), rig.JS(data))
 	for _, rg := range cw.pending[a.feat][*a.ref] {
 		want = append(want, c14Inv{rg.id, what})
+		if rg.acrossDrop {
+			cw.c.Count("callbacks-due-after-a-bystander-disconnect", 1)
+		}
+		if a.variant != "" {
+			cw.partials++
+			cw.c.Count("callbacks-due-with-restricted-reply:"+a.variant, 1)
+		}
 	}
 	if len(cw.pending[a.feat][*a.ref]) > 0 {
 		cw.consumed[a.feat][*a.ref] = true
@@ -309,6 +500,11 @@ func (cw *c14World) due(a c14Arrival) (want []c14Inv) {
 }
 
 func (cw *c14World) inject(a c14Arrival) {
+	cw.inject0(a)
+	cw.noteInjected(a)
+}
+
+func (cw *c14World) inject0(a c14Arrival) {
 	p := cw.w.Peers[a.peer]
 	cmd, _, _ := cw.cmdOf(a)
 	cl := model.CmdClassifierTypeReply
@@ -349,7 +545,15 @@ func (a c14Arrival) String() string {
 	if a.ref != nil {
 		ref = fmt.Sprint(*a.ref)
 	}
-	return fmt.Sprintf("peer%d %s to %d from [1]/%d ref=%s foreign=%v direct=%v n=%d", a.peer, a.kind, a.feat, a.srcFeat, ref, a.foreign, a.direct, a.n)
+	s := fmt.Sprintf("peer%d %s to %d from [1]/%d ref=%s foreign=%v direct=%v n=%d", a.peer, a.kind, a.feat, a.srcFeat, ref, a.foreign, a.direct, a.n)
+	if a.kind == "reply" {
+		if a.variant == "" {
+			s += fmt.Sprintf(" full(%d items)", a.k)
+		} else {
+			s += fmt.Sprintf(" %s(id %d)", a.variant, a.id)
+		}
+	}
+	return s
 }
 
 func c14Multiset(l []c14Inv) []string {
@@ -411,6 +615,22 @@ func (cw *c14World) settle(where, class string, want []c14Inv) bool {
 			}
 		}
 	}
+	if dev == "wrong-message-or-feature" {
+		// the right callbacks, each once: is it only the data that differs from what the message carried?
+		head := func(l []string) string {
+			var hs []string
+			for _, x := range l {
+				if i := strings.Index(x, " data="); i >= 0 {
+					x = x[:i]
+				}
+				hs = append(hs, x)
+			}
+			return strings.Join(hs, "\n")
+		}
+		if head(g) == head(w) {
+			dev = "data-is-not-the-received-data"
+		}
+	}
 	cw.viol(class+"/"+dev, "%s:\n expected invocations (%d):\n  %s\n observed invocations (%d):\n  %s", where, len(w), strings.Join(w, "\n  "), len(g), strings.Join(g, "\n  "))
 	return false
 }
@@ -419,7 +639,12 @@ func c14Case(c *rig.Ctx) { c14Run(c, c.Index%3 == 2) }
 
 func c14Run(c *rig.Ctx, racing bool) {
 	cw := newC14World(c)
-	defer cw.w.Close()
+	defer func() {
+		if !cw.byUp {
+			cw.w.Peers = cw.w.Peers[:2] // the bystander's connection is gone already
+		}
+		cw.w.Close()
+	}()
 	r := c.Rand
 	ctrs := []model.MsgCounterType{7, 8, 9, 10}[:1+r.Intn(4)]
 	steps := 14 + r.Intn(c.Pick(20, 27))
@@ -430,9 +655,10 @@ func c14Run(c *rig.Ctx, racing bool) {
 		if len(tr) > 50 {
 			tr = tr[:50]
 		}
-		c.Sample(map[string]any{"racing": racing, "counters": len(ctrs), "history": tr})
+		c.Sample(map[string]any{"racing": racing, "counters": len(ctrs), "bystander_disconnects": cw.byDrops, "callbacks_due_with_restricted_replies": cw.partials, "history": tr})
 		if c.Failed() {
 			c.Witness(map[string]any{"racing": racing, "history": cw.trace})
+			c.Count("cases_with_violations", 1)
 		}
 	}()
 	// one or two result callbacks are usually there from the start
@@ -496,6 +722,10 @@ func c14Run(c *rig.Ctx, racing bool) {
 			f := pickFeat(false)
 			cw.shape = append(cw.shape, fmt.Sprintf("rreg%d", f))
 			cw.registerResult(f)
+		case x < 50:
+			op := []string{"toggle", "toggle", "flap", "flap", "entity"}[r.Intn(5)]
+			cw.shape = append(cw.shape, fmt.Sprintf("by-%s-%v", op, cw.byUp))
+			cw.bystander(op)
 		default:
 			cw.nArr++
 			a := c14Arrival{peer: r.Intn(2), kind: "reply", n: 1000*cw.nArr + r.Intn(1000), errNo: r.Intn(3)}
@@ -520,6 +750,7 @@ func c14Run(c *rig.Ctx, racing bool) {
 			if a.kind == "reply" && r.Intn(5) == 0 {
 				a.foreign = true
 			}
+			cw.shapeReply(&a)
 			// the reference
 			var withPending, consumedHere, elsewhere []model.MsgCounterType
 			for _, ct := range ctrs {
@@ -555,8 +786,12 @@ func c14Run(c *rig.Ctx, racing bool) {
 				refKind = "any"
 				a.ref = util.Ptr(ctrs[r.Intn(len(ctrs))])
 			}
-			cw.shape = append(cw.shape, fmt.Sprintf("%s%d%s%v%v", a.kind[:3], a.feat, refKind[:3], a.foreign, a.direct))
+			cw.shape = append(cw.shape, fmt.Sprintf("%s%d%s%v%v%s", a.kind[:3], a.feat, refKind[:3], a.foreign, a.direct, a.variant))
 			c.Seen("arrival_classes", fmt.Sprintf("%s/%s/foreign=%v/direct=%v/to=%s", a.kind, refKind, a.foreign, a.direct, cw.names[a.feat]))
+			if a.variant != "" {
+				c.Seen("restricted_reply_classes", fmt.Sprintf("%s/%s/to=%s", a.variant, refKind, cw.names[a.feat]))
+				c.Count("restricted-replies-delivered:"+a.variant, 1)
+			}
 
 			if racing && refKind == "matching" && !a.foreign && r.Intn(2) == 0 {
 				if !c14Race(cw, a) {
@@ -681,6 +916,32 @@ func c14Race(cw *c14World, a c14Arrival) bool {
 		}
 		cw.inject(a)
 	}()
+	// every third race the bystander peer drops its connection (and comes back) at the same time
+	flap := cw.byUp && r.Intn(3) == 0
+	if flap {
+		flapDelay := []time.Duration{0, 0, 5, 20, 80, 300}[r.Intn(6)] * time.Microsecond
+		for f := range cw.pending {
+			for _, rgs := range cw.pending[f] {
+				for _, rg := range rgs {
+					rg.acrossDrop = true
+				}
+			}
+		}
+		wg.Add(1)
+		go func() {
+			defer wg.Done()
+			<-start
+			if flapDelay > 0 {
+				time.Sleep(flapDelay)
+			}
+			cw.w.Local.RemoveRemoteDeviceConnection(cw.by.Ski)
+			cw.byConnect()
+		}()
+		cw.byDrops++
+		c.Count("bystander-disconnects", 1)
+		c.Count("bystander-disconnects-concurrent-with-an-arrival", 1)
+		cw.logf("RACE: the bystander peer disconnects and reconnects concurrently")
+	}
 	close(start)
 	done := make(chan struct{})
 	go func() { wg.Wait(); close(done) }()
@@ -700,10 +961,14 @@ func c14Race(cw *c14World, a c14Arrival) bool {
 		return false
 	}
 	got1 := cw.log.take()
+	if flap {
+		cw.baseline = c14Settle()
+	}
 	// follow-up matching message from the other or the same peer
 	cw.nArr++
 	b := a
 	b.peer, b.n = r.Intn(2), 1000*cw.nArr+r.Intn(1000)
+	cw.shapeReply(&b)
 	q := cw.w.Peers[b.peer]
 	_, data2, _ := cw.cmdOf(b)
 	what2 := fmt.Sprintf("ref=%d local=%s from=%s/%s data=%s", ctr, cw.feats[b.feat].Address().String(), q.Ski, cw.srcAddr(b).String(), rig.JS(data2))
@@ -924,6 +1189,7 @@ func c14Duel(cw *c14World, f int, ctr model.MsgCounterType) bool {
 		if f < 2 && r.Intn(2) == 0 {
 			a.kind = "reply"
 		}
+		cw.shapeReply(&a)
 		return a
 	}
 	a := mkArr()
